@@ -71,7 +71,7 @@ def corpus_cases(workdir):
     return cases
 
 
-def build(tier, seed, variant='', harness_args=('rows', 'extra'), n=None, maxops=None):
+def build(tier, seed, variant='', harness_args=('rows', 'extra'), n=None, maxops=None, gen_args=()):
     """returns dict(dir, cases, model, impl, stats); cached"""
     d = corpus_dir(tier, seed, variant)
     done = os.path.join(d, 'done.json')
@@ -88,7 +88,7 @@ def build(tier, seed, variant='', harness_args=('rows', 'extra'), n=None, maxops
     gshards = 1 if n <= 400 else 16
     for s in range(gshards):
         gp = os.path.join(d, f'gen{s}.jsonl')
-        procs.append((subprocess.Popen([DRIVER, 'gen', str((n + gshards - 1) // gshards), str(seed * 1000 + s), str(maxops), gp],
+        procs.append((subprocess.Popen([DRIVER, 'gen', str((n + gshards - 1) // gshards), str(seed * 1000 + s), str(maxops), gp] + list(gen_args),
                                        stdout=subprocess.PIPE, stderr=subprocess.STDOUT, text=True), gp, s))
     dist = {}
     lines = corpus_cases(d)
